@@ -21,10 +21,17 @@ def recurrence_abc(n, alpha, beta):
 
     """
     aplusb = alpha+beta
-    if n == 0 and (aplusb == 0 or aplusb == -1):
+    if n == 0:
+        # for n=0 the general expressions reduce to these; they are written
+        # out because the general form of B divides (alpha^2 - beta^2) by
+        # (alpha + beta), which is 0/0 on the line alpha+beta=0 and loses all
+        # accuracy to cancellation next to it (e.g. alpha=0.1+0.2, beta=-0.3)
         A = 1/2 * (alpha + beta) + 1
         B = 1/2 * (alpha - beta)
-        C = 1
+        if aplusb == 0 or aplusb == -1:
+            C = 1
+        else:
+            C = (alpha * beta * (aplusb + 2)) / ((aplusb + 1) * aplusb)
     else:
         Anum = (2 * n + alpha + beta + 1) * (2 * n + alpha + beta + 2)
         Aden = 2 * (n + 1) * (n + alpha + beta + 1)
